@@ -64,6 +64,14 @@ Definition lim_agrees (m : option lim_state) (ob : option (option N * list (opti
   | _, _ => false
   end.
 
+(** the manager and the registered consumers together: one step of a history with registrations *)
+Definition jstep (c : scfg) (o : oracle) (sp : state * pstate) (x : pop) : state * pstate :=
+  match x with
+  | POp y => let '(s1, ot) := step c o (fst sp) y in (s1, fold_left p_apply (o_updates ot) (snd sp))
+  | PReg k => let '(s1, ot) := step c o (fst sp) (ORegister (consumer_type k)) in (s1, p_register (snd sp) k (o_updates ot))
+  end.
+Definition jrun (c : scfg) (o : oracle) (h : list pop) : state * pstate := fold_left (jstep c o) h (init_state, p_init).
+
 Fixpoint pol_agree (c : scfg) (o : oracle) (s : state) (p : pstate) (tr : list (pop * step_obs * pol_obs)) : bool * bool * bool :=
   match tr with
   | [] => (true, true, true)
